@@ -331,7 +331,25 @@ def chem_case(ctx, qp, rng, gi, molname, basis, active):
             sec = qp.qchem.optimal_sector(H, gens, ne)
             Ht = qp.taper(H, gens, px, sec)
             hsec = Hs[sector][:, sector].toarray()
-            e_ref = float(np.linalg.eigvalsh((hsec + hsec.conj().T) / 2)[0])
+            ew, ev = np.linalg.eigh((hsec + hsec.conj().T) / 2)
+            e_ref = float(ew[0])
+            # premise of optimal_sector: the sector is read off the Hartree-Fock determinant, so it contains the true ground state only if that
+            # state has the same generator eigenvalues as HF (not the case e.g. for near-square H4, where HF and the ground state differ in symmetry)
+            gs = np.zeros(2**n, dtype=complex)
+            gs[sector] = ev[:, 0]
+            hfi0 = int("".join(map(str, [1] * ne + [0] * (n - ne))), 2)
+            same_sym = len(ew) == 1 or ew[1] - ew[0] > 1e-6
+            hf_vals = []
+            for g in gens:
+                G = sparse_from_pauli(pauli_terms(g, n), n)
+                hv = float(G[hfi0, hfi0].real)
+                hf_vals.append(int(round(hv)))
+                if abs(float(np.vdot(gs, G @ gs).real) - hv) > 1e-6:
+                    same_sym = False
+            if [int(x) for x in sec] != hf_vals:
+                viol("taper", f"optimal_sector returned {list(sec)} but the Hartree-Fock determinant has generator eigenvalues {hf_vals}", "taper:sector")
+            if not same_sym:
+                ctx.count("guard:ground_state_not_in_hf_sector")
             if len(Ht.wires):
                 Mt = np.asarray(qp.matrix(Ht, wire_order=sorted(Ht.wires)))
                 e_t = float(np.linalg.eigvalsh((Mt + Mt.conj().T) / 2)[0])
@@ -342,7 +360,7 @@ def chem_case(ctx, qp, rng, gi, molname, basis, active):
             # contains the ground state of the N_e-electron problem (states with N_e +- 2 electrons may share the block, so its minimum can be lower)
             e_all = np.linalg.eigvalsh((Hd + Hd.conj().T) / 2)
             spec_t = np.linalg.eigvalsh((Mt + Mt.conj().T) / 2) if Mt is not None else np.array([e_t])
-            if np.min(np.abs(spec_t - e_ref)) > 1e-8:
+            if same_sym and np.min(np.abs(spec_t - e_ref)) > 1e-8:
                 viol("taper", f"tapered Hamiltonian (sector {list(sec)}) does not contain the N_e={ne} ground energy {e_ref:.10f} (its lowest eigenvalue is {e_t:.10f})",
                      "taper:energy", e_t, e_ref)
             elif max(np.min(np.abs(e_all - x)) for x in spec_t) > 1e-8:
